@@ -152,3 +152,49 @@ func VH_C01_Leave() {
 	verifrt.Assert(len(ps) == k, "exactly the leavers are gone")
 	verifrt.Reach("end")
 }
+
+// VH_C01_Frame: operations that are not supposed to move chips leave every
+// bankroll alone. op: 0 openGame, 1 continueGame, 2 PlayerJoin, 3..11 an accepted
+// or refused Player<Action> (nondeterministic backend), 12 UpdateBlind, 13 tableGameOpen.
+func VH_C01_Frame() {
+	n := verifrt.Cfg("n")
+	m := verifrt.Cfg("m")
+	op := verifrt.Cfg("op")
+	hand := m
+	if op <= 2 || op >= 12 {
+		hand = 0
+	}
+	w := vhNewWorld(n, verifrt.Cfg("M"), hand, hand > 0)
+	te := w.te
+	pre := make([]int64, n)
+	for i, p := range te.table.State.PlayerStates {
+		pre[i] = p.Bankroll
+	}
+	t := te.table
+	switch {
+	case op == 0:
+		nt, err := te.openGame(te.table)
+		if err == nil {
+			t = nt
+		}
+	case op == 1:
+		te.table.Meta.Mode = CompetitionMode_MTT
+		te.continueGame([]*TablePlayerState{})
+	case op == 2:
+		te.PlayerJoin(vhIDs[verifrt.IntRange("who", 0, n-1)])
+	case op <= 11:
+		who := verifrt.IntRange("who", 0, n)
+		id := "stranger"
+		if who < n {
+			id = vhIDs[who]
+		}
+		vhDo(te, op-3, id, verifrt.Int64("chips"))
+	case op == 12:
+		te.UpdateBlind(verifrt.IntRange("nb.level", -1, 5), verifrt.Int64("nb.ante"), verifrt.Int64("nb.dealer"), verifrt.Int64("nb.sb"), verifrt.Int64("nb.bb"))
+	}
+	verifrt.Assert(len(t.State.PlayerStates) == n, "nobody is added or removed")
+	for i, p := range t.State.PlayerStates {
+		verifrt.Assert(p.PlayerID == vhIDs[i] && p.Bankroll == pre[i], "bankrolls are untouched by operations that move no chips")
+	}
+	verifrt.Reach("end")
+}
